@@ -40,6 +40,9 @@ pub struct C09 {
     pub steady: Option<u64>,
     /// the bar has no length (per_sec laws still apply; eta and duration are zero)
     pub no_len: bool,
+    /// 0: plain; 1: a tick() (an update that carries no progress) in the middle of every gap;
+    /// 2: the starting position is set through ProgressBarIter::with_position instead of ProgressBar::with_position
+    pub variant: u8,
 }
 
 #[derive(Clone, Debug)]
@@ -60,7 +63,7 @@ fn query(pb: &ProgressBar, base: u64) -> Vec<Q> {
     v
 }
 
-fn apply(pb: &ProgressBar, ev: &Ev, pos: &mut u64) {
+fn apply(pb: &ProgressBar, ev: &Ev, pos: &mut u64, ticks: bool) {
     // reading the estimate is free of side effects: it happens before every event
     let _ = (pb.per_sec(), pb.eta(), pb.duration());
     match ev {
@@ -75,7 +78,13 @@ fn apply(pb: &ProgressBar, ev: &Ev, pos: &mut u64) {
             pb.set_position(*pos);
         }
         Ev::Inc(gap, d) => {
-            clock::advance_ns(*gap);
+            if ticks && *gap >= 2 {
+                clock::advance_ns(*gap / 2);
+                pb.tick();
+                clock::advance_ns(*gap - *gap / 2);
+            } else {
+                clock::advance_ns(*gap);
+            }
             pb.inc(*d);
             *pos += d;
         }
@@ -132,6 +141,11 @@ impl C09 {
             Some(s) => format!("{base}, built with_elapsed({s} s)"),
             None => base,
         };
+        let base = match self.variant {
+            1 => format!("{base}, a tick() in the middle of every gap"),
+            2 => format!("{base}, position set through ProgressBarIter::with_position"),
+            _ => base,
+        };
         match self.base_pos {
             Some(b) => format!("{base}, built with_position({b})"),
             None => base,
@@ -148,7 +162,14 @@ impl Hist for C09 {
             return if matches!(prefix.last(), Some(Ev::Finish | Ev::Abandon)) && self.steady.is_none() { vec![Ev::ResetElapsed, Ev::ResetEta] } else { vec![] };
         }
         match self.steady {
-            Some(r) => GAPS.iter().filter(|&&g| (r as u128 * g as u128) % S as u128 == 0 && r as u128 * g as u128 / S as u128 >= 1).map(|&g| Ev::Inc(g, (r as u128 * g as u128 / S as u128) as u64)).collect(),
+            Some(r) => GAPS
+                .iter()
+                .filter(|&&g| (r as u128 * g as u128) % S as u128 == 0 && r as u128 * g as u128 / S as u128 >= 1)
+                .map(|&g| Ev::Inc(g, (r as u128 * g as u128 / S as u128) as u64))
+                // a bar that started out at a position may also be abandoned: the average reported for the
+                // finished bar is bounded by the observed rate as well (the starting position is not progress)
+                .chain(if self.base_pos.is_some() && !prefix.is_empty() { Some(Ev::Abandon) } else { None })
+                .collect(),
             None => {
                 let mut v = Vec::new();
                 for g in GAPS {
@@ -206,13 +227,13 @@ impl Hist for C09 {
                 pb = pb.with_elapsed(Duration::from_secs(secs));
             }
             if let Some(b) = self.base_pos {
-                pb = pb.with_position(b);
+                pb = if self.variant == 2 { pb.wrap_iter(std::iter::empty::<u8>()).with_position(b).progress.clone() } else { pb.with_position(b) };
                 pos = b;
             }
             let mut moved: Option<String> = None;
             for ev in hist {
                 let before = if *ev == Ev::SetSame { Some((pb.per_sec().to_bits(), pb.eta())) } else { None };
-                apply(&pb, ev, &mut pos);
+                apply(&pb, ev, &mut pos, self.variant == 1);
                 if let Some(b) = before {
                     let a = (pb.per_sec().to_bits(), pb.eta());
                     if a != b && moved.is_none() {
@@ -359,7 +380,7 @@ impl Hist for C09 {
                 let mut p = 0u64;
                 let dummy = ProgressBar::with_draw_target(Some(LEN), ProgressDrawTarget::hidden());
                 for ev in &hist[..=k] {
-                    apply(&dummy, ev, &mut p);
+                    apply(&dummy, ev, &mut p, self.variant == 1);
                 }
                 let t_reset = clock::now_ns();
                 drop(dummy);
@@ -367,7 +388,7 @@ impl Hist for C09 {
                 let fb = ProgressBar::with_draw_target(if self.no_len { None } else { Some(LEN - p) }, ProgressDrawTarget::hidden());
                 let mut fp = 0u64;
                 for ev in &hist[k + 1..] {
-                    apply(&fb, ev, &mut fp);
+                    apply(&fb, ev, &mut fp, self.variant == 1);
                 }
                 let b2 = clock::now_ns();
                 (query(&fb, b2), b2)
@@ -404,16 +425,22 @@ impl Hist for C09 {
 
 fn configs(tier: Tier) -> Vec<(C09, usize)> {
     let (d, ds) = if tier == Tier::Quick { (5, 6) } else { (6, 8) };
-    let mut v = vec![(C09 { base_pos: None, with_elapsed: None, steady: None, no_len: false }, d), (C09 { base_pos: None, with_elapsed: None, steady: None, no_len: true }, d - 1)];
+    let mut v = vec![(C09 { base_pos: None, with_elapsed: None, steady: None, no_len: false, variant: 0 }, d), (C09 { base_pos: None, with_elapsed: None, steady: None, no_len: true, variant: 0 }, d - 1)];
     for r in [1u64, 1_000, 1_000_000, 1_000_000_000_000] {
-        v.push((C09 { base_pos: None, with_elapsed: None, steady: Some(r), no_len: false }, ds));
+        v.push((C09 { base_pos: None, with_elapsed: None, steady: Some(r), no_len: false, variant: 0 }, ds));
     }
     // bars built with an elapsed time restored from an earlier run
-    v.push((C09 { base_pos: None, with_elapsed: Some(120), steady: Some(1_000), no_len: false }, ds));
-    v.push((C09 { base_pos: None, with_elapsed: Some(5), steady: None, no_len: false }, d - 1));
+    v.push((C09 { base_pos: None, with_elapsed: Some(120), steady: Some(1_000), no_len: false, variant: 0 }, ds));
+    v.push((C09 { base_pos: None, with_elapsed: Some(5), steady: None, no_len: false, variant: 0 }, d - 1));
     // a resumed transfer: the bar starts at a position beyond 2^53 (u64 -> f64 conversions are no longer exact)
-    v.push((C09 { base_pos: Some(1 << 59), with_elapsed: None, steady: Some(1_000), no_len: false }, ds));
-    v.push((C09 { base_pos: Some((1 << 59) + 1), with_elapsed: None, steady: Some(1), no_len: false }, ds - 1));
+    v.push((C09 { base_pos: Some(1 << 59), with_elapsed: None, steady: Some(1_000), no_len: false, variant: 0 }, ds));
+    v.push((C09 { base_pos: Some((1 << 59) + 1), with_elapsed: None, steady: Some(1), no_len: false, variant: 0 }, ds - 1));
+    // updates that carry no progress between the ones that do
+    v.push((C09 { base_pos: None, with_elapsed: None, steady: Some(1), no_len: false, variant: 1 }, ds));
+    v.push((C09 { base_pos: None, with_elapsed: None, steady: Some(1_000_000), no_len: false, variant: 1 }, ds - 1));
+    // the starting position of a wrapped iterator
+    v.push((C09 { base_pos: Some(500_000_000), with_elapsed: None, steady: Some(1_000), no_len: false, variant: 2 }, ds - 1));
+    v.push((C09 { base_pos: Some(1 << 40), with_elapsed: None, steady: Some(1), no_len: false, variant: 2 }, ds - 1));
     v
 }
 
